@@ -36,15 +36,49 @@ func checkC15(c *Ctx, r *Report) {
 		}
 	}
 	elk := ebP + ".emitAndLogError"
-	if f := r1.need(elk); f != nil {
-		isSink := func(v ssa.Value) bool { return isParamVar(c, v, "sink") }
-		isEvt := func(v ssa.Value) bool { return isParamVar(c, v, "evt") }
-		res := (&pathEnum{Fn: f,
+	// deliversOnce: every path of h sends the value of its evtIdx-th parameter on the channel of the sink that is its
+	// sinkIdx-th parameter exactly once — directly, through a select case, or by handing both to a function that does.
+	type dkey struct {
+		f         *ssa.Function
+		sink, evt int
+	}
+	dmemo := map[dkey]*pathResult{}
+	var deliversOnce func(h *ssa.Function, sinkIdx, evtIdx, depth int) pathResult
+	// countIn: the per-path send counter of function g, given what its sink and event are
+	countIn := func(g *ssa.Function, header *ssa.BasicBlock, body map[*ssa.BasicBlock]bool, isSink, isEvt func(ssa.Value) bool, depth int) pathResult {
+		return (&pathEnum{Fn: g, Header: header, Body: body,
 			Instr: func(in ssa.Instruction) int {
 				if s, ok := in.(*ssa.Send); ok && chanOf(isSink)(s.Chan) && isEvt(s.X) {
 					return 1
 				}
-				return 0
+				call, ok := in.(*ssa.Call)
+				if !ok || depth <= 0 {
+					return 0
+				}
+				h := call.Call.StaticCallee()
+				if h == nil || h.Blocks == nil || h.Pkg == nil || !strings.HasPrefix(h.Pkg.Pkg.Path()+"/", Mod) {
+					return 0
+				}
+				si, ei := -1, -1
+				for i, a := range call.Call.Args {
+					if isSink(a) {
+						si = i
+					}
+					if isEvt(a) {
+						ei = i
+					}
+				}
+				if si < 0 || ei < 0 {
+					return 0
+				}
+				res := deliversOnce(h, si, ei, depth-1)
+				if res.only(1) {
+					return 1
+				}
+				if res.only(0) {
+					return 0
+				}
+				return 1000 // sometimes: never acceptable
 			},
 			Edge: func(b *ssa.BasicBlock, s int) int {
 				if selectSendEdge(b, s, chanOf(isSink), isEvt) {
@@ -53,35 +87,66 @@ func checkC15(c *Ctx, r *Report) {
 				return 0
 			},
 			Maybe: func(in ssa.Instruction) bool { return selectSendUntested(in, chanOf(isSink), isEvt) }}).Run()
-		r1.Check(res.only(1), elk+": every path sends evt on sink.ch exactly once", f.Pos(), res.paths, res.String(), "a slow subscriber's event is dropped (or delivered twice)", res.String())
+	}
+	deliversOnce = func(h *ssa.Function, sinkIdx, evtIdx, depth int) pathResult {
+		k := dkey{h, sinkIdx, evtIdx}
+		if r, ok := dmemo[k]; ok {
+			if r == nil {
+				return pathResult{counts: map[int]string{1000: "recursion"}, paths: 1}
+			}
+			return *r
+		}
+		dmemo[k] = nil
+		ps, pe := h.Params[sinkIdx], h.Params[evtIdx]
+		res := countIn(h, nil, nil,
+			func(v ssa.Value) bool { return v == ssa.Value(ps) || isParamCellLoad(c, v, ps) },
+			func(v ssa.Value) bool { return v == ssa.Value(pe) || isParamCellLoad(c, v, pe) }, depth)
+		dmemo[k] = &res
+		return res
+	}
+	if f := r1.need(elk); f != nil {
+		si, ei := -1, -1
+		for i, p := range f.Params {
+			if paramIs(p, "sink") {
+				si = i
+			}
+			if paramIs(p, "evt") {
+				ei = i
+			}
+		}
+		if si < 0 || ei < 0 {
+			r1.Fail(elk+": parameters", f.Pos(), "sink / evt parameters not found", "")
+		} else {
+			res := deliversOnce(f, si, ei, 2)
+			r1.Check(res.only(1), elk+": every path sends evt on sink.ch exactly once", f.Pos(), res.paths, res.String(), "a slow subscriber's event is dropped (or delivered twice)", res.String())
+		}
 	}
 	for _, k := range []struct{ fn, sinksField string }{{nodeM("emit"), nodeT + ".sinks"}, {wM("emit"), wT + ".sinks"}} {
 		f := r1.need(k.fn)
 		if f == nil {
 			continue
 		}
-		var selBlock *ssa.BasicBlock
+		// the delivery loop: the innermost loop that loads an element of the sinks list
+		var elemBlock *ssa.BasicBlock
+		isSinksList := func(v ssa.Value) bool {
+			return derivesFrom(v, isLoadOfField(k.sinksField))
+		}
 		allInstrs(f, func(in ssa.Instruction) {
-			if _, ok := in.(*ssa.Select); ok {
-				selBlock = in.Block()
-			}
-			if isCallTo(in, elk) && selBlock == nil {
-				selBlock = in.Block()
-			}
-			if _, ok := in.(*ssa.Send); ok && selBlock == nil {
-				selBlock = in.Block()
+			if ld, ok := in.(*ssa.UnOp); ok && ld.Op == token.MUL {
+				if ia, ok := ld.X.(*ssa.IndexAddr); ok && isSinksList(ia.X) {
+					elemBlock = in.Block()
+				}
 			}
 		})
-		if selBlock == nil {
-			r1.Fail(k.fn+": delivery loop", f.Pos(), "no send / select / helper call found", "")
+		if elemBlock == nil {
+			r1.Fail(k.fn+": delivery loop", f.Pos(), "no loop over the sinks found", "")
 			continue
 		}
-		h, body := innermostLoop(f, selBlock)
+		h, body := innermostLoop(f, elemBlock)
 		if h == nil {
-			r1.Fail(k.fn+": delivery loop", f.Pos(), "the send is not inside a loop over the sinks", "")
+			r1.Fail(k.fn+": delivery loop", f.Pos(), "the sinks are not visited in a loop", "")
 			continue
 		}
-		// the loop's element: a load of sinks[i]
 		isSink := func(v ssa.Value) bool {
 			ld, ok := v.(*ssa.UnOp)
 			if !ok || ld.Op != token.MUL {
@@ -91,29 +156,10 @@ func checkC15(c *Ctx, r *Report) {
 			if !ok || !body[ld.Block()] {
 				return false
 			}
-			return isLoadOfField(k.sinksField)(ia.X)
+			return isSinksList(ia.X)
 		}
 		isEvt := func(v ssa.Value) bool { return isParamVar(c, v, "evt") }
-		res := (&pathEnum{Fn: f, Header: h, Body: body,
-			Instr: func(in ssa.Instruction) int {
-				if s, ok := in.(*ssa.Send); ok && chanOf(isSink)(s.Chan) && isEvt(s.X) {
-					return 1
-				}
-				if isCallTo(in, elk) {
-					a := callArgs(in.(ssa.CallInstruction))
-					if isEvt(a[2]) && isSink(a[3]) {
-						return 1
-					}
-				}
-				return 0
-			},
-			Edge: func(b *ssa.BasicBlock, s int) int {
-				if selectSendEdge(b, s, chanOf(isSink), isEvt) {
-					return 1
-				}
-				return 0
-			},
-			Maybe: func(in ssa.Instruction) bool { return selectSendUntested(in, chanOf(isSink), isEvt) }}).Run()
+		res := countIn(f, h, body, isSink, isEvt, 3)
 		r1.Check(res.only(1), k.fn+": every iteration over the sinks sends evt to that sink exactly once", f.Pos(), res.paths, res.String(), "an event is dropped for (or delivered twice to) a subscriber", res.String())
 	}
 	if f := r1.need("(*" + ebP + ".emitter).Emit"); f != nil {
